@@ -242,10 +242,11 @@ type cand struct {
 }
 
 type docInfo struct {
-	doc     string
-	cands   []cand
-	skipped []bool   // per byte: the state machine below does not read Markdown there (HTML, code block)
-	kinds   []string // per line: fence, indented, def, inline
+	doc        string
+	cands      []cand
+	skipped    []bool   // per byte: the state machine below does not read Markdown there (HTML, code block)
+	kinds      []string // per line: fence, indented, def, inline
+	outOfPhase []bool   // per byte: earlier on the line a code span ended inside a longer backtick string
 }
 
 var infoMemo = map[string]*docInfo{}
@@ -296,7 +297,7 @@ func analyse(doc string) *docInfo {
 	if len(doc) > 2000 || parsed(doc) == nil {
 		return in
 	}
-	in.skipped, in.kinds = scanModel(doc)
+	in.skipped, in.kinds, in.outOfPhase = scanModel(doc)
 	ls := 0
 	for ln, line := range strings.Split(doc, "\n") {
 		add := func(sp span, raw string, def bool, lb, anchor int) *cand {
@@ -627,8 +628,9 @@ func defLine(line string) bool {
 // of n or more, or the end of the line; code blocks are ignored here. This is a statement of the
 // CAUSE of several classes; whether it predicts the real code is measured by the precision
 // self-test, it is never taken on trust.
-func scanModel(doc string) ([]bool, []string) {
+func scanModel(doc string) ([]bool, []string, []bool) {
 	sk := make([]bool, len(doc)+1)
+	oop := make([]bool, len(doc)+1) // per byte: a code span of this line ended inside a longer backtick string before it
 	var kinds []string
 	var stack []string
 	rawTag, rawCloser := "", ""
@@ -756,6 +758,11 @@ func scanModel(doc string) ([]bool, []string) {
 					}
 					if m >= n { // the last n backticks of a longer run close as well (ld-code-span-closed-inside-longer-run)
 						j += m - n
+						if m > n {
+							for k := j + n; k <= len(line) && ls+k < len(oop); k++ {
+								oop[ls+k] = true
+							}
+						}
 						break
 					}
 					j += m
@@ -781,7 +788,7 @@ func scanModel(doc string) ([]bool, []string) {
 		}
 		ls += len(line) + 1
 	}
-	return sk, kinds
+	return sk, kinds, oop
 }
 
 func popTag(stack []string, name string) []string {
@@ -1130,7 +1137,7 @@ func init() {
 						q--
 					}
 					lb, diverged := openBracketLoose(in.doc[q:c.anchor])
-					return lb >= 0 && diverged && !in.anySkipped(q, c.e)
+					return lb >= 0 && (diverged || c.anchor < len(in.outOfPhase) && in.outOfPhase[c.anchor]) && !in.anySkipped(q, c.e)
 				})
 			},
 			gen: genLooseTicks},
